@@ -48,6 +48,8 @@ pub enum Op {
     SetBroadcast(bool),
     SetLoop(bool),
     Join { g: u8, lo_iface: bool },
+    /// join_multicast_v4 with an interface address that is not the host's: refused, no membership
+    JoinBadIface { g: u8 },
     Leave { g: u8 },
     Send { to: Dst, len: u8, try_send: bool },
     /// recv_from wrapped in a timeout of `wait` ticks
@@ -325,6 +327,14 @@ async fn run_actor(sh: Shared, host: usize, actor: usize, ops: Vec<Op>) {
                         let r = if sh.v6 { s.set_multicast_loop_v6(*on) } else { s.set_multicast_loop_v4(*on) };
                         if r.is_ok() {
                             sh.ev(host, actor, EvK::SetLoop(*on));
+                        }
+                    }
+                    Op::JoinBadIface { g } => {
+                        // an interface address the host does not have: the join is refused and must leave no trace
+                        if let IpAddr::V4(a) = group_ip(sh.v6, *g) {
+                            let r = s.join_multicast_v4(a, Ipv4Addr::new(10, 9, 8, 7));
+                            *sh.counts.borrow_mut().entry(if r.is_ok() { "join_with_foreign_interface_accepted" } else { "join_with_foreign_interface_refused" }).or_insert(0) += 1;
+                            sh.ev(host, actor, EvK::Join { group: IpAddr::V4(a), ok: r.is_ok() });
                         }
                     }
                     Op::Join { g, lo_iface } => {
@@ -682,6 +692,11 @@ fn gen_scenario(rng: &mut Rng) -> Scenario {
                     4 => ops.push(Op::Sleep { ticks: rng.range(0, 6) as u8, extra_ms: if tick_ms > 1 && rng.chance(1, 3) { rng.below(tick_ms) as u8 } else { 0 } }),
                     5 => {
                         let gi = rng.below(ngroups as u64) as u8;
+                        if !v6 && rng.chance(1, 8) {
+                            // (not recorded in `g.joined`: the socket is no member afterwards)
+                            ops.push(Op::JoinBadIface { g: gi });
+                            continue;
+                        }
                         ops.push(Op::Join { g: gi, lo_iface: !v6 && rng.chance(1, 6) });
                         if !g.joined.contains(&gi) {
                             g.joined.push(gi);
@@ -912,7 +927,11 @@ impl Property for C09 {
         let mut steps = 0u64;
         let mut harness_error = None;
 
+        // one scenario in eight runs with turmoil's trace events enabled and formatted (a subscriber at
+        // TRACE level, as under RUST_LOG=turmoil=trace): logging must not change or break anything
+        let traced = sc.cfg.rng_seed % 8 == 0;
         let res = catch(|| {
+            let _cap = if traced { Some(crate::simkit::trace::Enabled::new()) } else { None };
             let mut sim = sc.cfg.build();
             let mut order: Vec<usize> = sc.reg_order.iter().map(|h| *h as usize).filter(|h| *h < nh).collect();
             for h in 0..nh {
@@ -1255,6 +1274,7 @@ impl Property for C09 {
                 Op::SetBroadcast(_) => "bc",
                 Op::SetLoop(_) => "loop",
                 Op::Join { .. } => "join",
+                Op::JoinBadIface { .. } => "join-bad-iface",
                 Op::Leave { .. } => "leave",
                 Op::Send { to: Dst::Broadcast { .. }, .. } => "sendB",
                 Op::Send { to: Dst::Group { .. }, .. } => "sendM",
